@@ -1,7 +1,7 @@
 (* C03: a dumped data package loads back to the same typed data. *)
 From Coq Require Import Permutation List ZArith Bool.
 From DF Require Import Base.Str Base.Lits Base.Value IO.Csv IO.Csv_proofs IO.Codec IO.Codec_proofs Gen.Consts IO.RowCells IO.RowCells_proofs.
-From DF Require IO.EJson IO.JsonText IO.JsonText_proofs.
+From DF Require IO.EJson IO.JsonText IO.JsonText_proofs IO.SortKeys IO.SortKeys_proofs.
 Import ListNotations.
 Open Scope Z_scope.
 
@@ -77,6 +77,14 @@ Theorem C03_json_file_roundtrip : forall rows,
   JsonText_proofs.iok rows -> JsonText.jparse (JsonText.json_file rows) = Some (EJson.JArr rows).
 Proof. exact JsonText_proofs.jparse_json_file. Qed.
 Print Assumptions C03_json_file_roundtrip.
+
+(* format_json.py writes every row with sort_keys=True: the file does not depend on the order of the keys in the rows
+   handed to the writer, at any depth *)
+Theorem C03_json_file_independent_of_key_order : forall rows rows',
+  Forall2 SortKeys_proofs.jperm rows rows' ->
+  JsonText.json_file (map SortKeys.jsort rows) = JsonText.json_file (map SortKeys.jsort rows').
+Proof. exact SortKeys_proofs.json_file_rows_jperm. Qed.
+Print Assumptions C03_json_file_independent_of_key_order.
 
 From Coq Require Import String.
 Local Open Scope string_scope.
